@@ -52,9 +52,9 @@ pub(crate) fn crypto_secretbox_open_detached_inplace(
     computed_mac.update(data);
     let computed_mac = computed_mac.finalize_to_array();
 
-    cipher.apply_keystream(data);
-
     if mac.ct_eq(&computed_mac).unwrap_u8() == 1 {
+        // only decrypt once the ciphertext is known to be authentic
+        cipher.apply_keystream(data);
         Ok(())
     } else {
         Err(dryoc_error!("decryption error (authentication failure)"))
